@@ -19,6 +19,7 @@ import H263V.Lemmas.IdctSpec
 import H263V.Lemmas.ReconSpec
 import H263V.Lemmas.LevelArrays
 import H263V.Lemmas.SampleErr
+import H263V.Lemmas.IntraEnd
 namespace H263V.Thm.C02
 open H263V H263V.Gather H263V.Spec.Vlc
 
@@ -182,14 +183,18 @@ theorem macroblock_header_round_trip (hdr : PicHdr) (running : Nat) (ip : Bool) 
       .ok (toMacroblock t f ccb ccr dq mvd mvd234, ⟨rest, pos + (encodeMbHeader ip t f ccb ccr dq mvd mvd234).length⟩) :=
   decodeMacroblock_coded hdr running ip ctx t f ccb ccr dq mvd mvd234 hmc hdq hmv h4 rest pos
 
-open H263V.Lemmas.SorensonPicture H263V.Lemmas.PictureRoundTrip H263V.Lemmas.RoundTrip H263V.Spec.Syntax in
-/-- non-vacuity: a 16x16 intra picture of one INTRA+Q macroblock (DQUANT −2) with a short event, a 7-bit and an 11-bit escape
-event and a DC-only block meets `SPic.Valid` -/
-example : (⟨{ version := 1, tr := 7, sizeCode := 0, customW := 16, customH := 16, picType := 0, deblock := true, quant := 5, extra := [9] },
+/-- a 16x16 intra picture of one INTRA+Q macroblock (DQUANT −2) with a short event, a 7-bit and an 11-bit escape event and
+DC-only blocks -/
+def exSPic : Lemmas.SorensonPicture.SPic :=
+  ⟨{ version := 1, tr := 7, sizeCode := 0, customW := 16, customH := 16, picType := 0, deblock := true, quant := 5, extra := [9] },
     [⟨1, .coded .intraQ (-2) (0, 0) ((0, 0), (0, 0), (0, 0))
       [{ dc := some 100, events := [⟨0, 3, .short⟩, ⟨2, -50, .esc7⟩, ⟨5, 700, .esc11⟩] }, { dc := some 255 }, { dc := some 1 },
-       { dc := some 127 }, { dc := some 129, events := [⟨63, -1, .esc7⟩] }, { dc := some 200 }]⟩]⟩ : SPic).Valid
-    { sorenson := true, scalability := false } 16 16 := by
+       { dc := some 127 }, { dc := some 129, events := [⟨63, -1, .esc7⟩] }, { dc := some 200 }]⟩]⟩
+
+open H263V.Lemmas.SorensonPicture H263V.Lemmas.PictureRoundTrip H263V.Lemmas.RoundTrip H263V.Spec.Syntax in
+/-- non-vacuity: `exSPic` meets `SPic.Valid` -/
+theorem exSPic_valid : exSPic.Valid { sorenson := true, scalability := false } 16 16 := by
+  unfold exSPic
   refine ⟨⟨by decide, by decide, by decide, by decide, by decide, by decide, by decide, by decide⟩, by decide, rfl, rfl, ?_⟩
   intro m hm
   simp only [List.mem_singleton] at hm
@@ -226,5 +231,47 @@ example : (⟨{ tr := 9, ufep := true, srcFmt := 6, customPcf := true, ap := tru
     rcases this with e | e | e | e | e | e <;> subst e <;>
       refine ⟨⟨_, rfl, by decide, by decide, by decide⟩, ?_⟩ <;>
       simp only [blk, List.getD_cons_zero, List.getD_cons_succ, EventsOK, EventOK, v1] <;> decide
+
+open H263V.State H263V.Lemmas.StreamAny H263V.Lemmas.LevelArrays H263V.Lemmas.SampleErr H263V.Lemmas.PlaneInv in
+/-- **C02 in one statement.**  In every decoder state a history can reach (`StoreOK`: the invariant of C01, `invariant_of_history`;
+carried-over options empty: `C15.running_zero_of_history`), a valid intra picture of ANY header flavour (Sorenson, PTYPE, PLUSPTYPE)
+with a non-empty picture area, followed by anything:
+* **decodes successfully** (no error value; the panics are excluded by C01's totality theorem) and leaves the reader exactly
+  behind the picture's bits;
+* the decoded picture reports the header; its planes have **exactly the signalled sizes** `w*h`, `ceil(w/2)*ceil(h/2)` twice;
+* the level arrays the inverse transform reads hold, slot by slot, the blocks of the description at their macroblock / block
+  position, each expanded (zig-zag placement, dequantisation, INTRADC; C11) with the quantizer in force at its macroblock
+  (`QChain`: picture quantizer, then clamp(1, 31, previous + DQUANT));
+* **every sample of every plane is within one of the H.263 reconstruction** `idealVal`: clip to 0..255 of the reference inverse
+  transform — exact arithmetic, nearest integer, clipped to -256..255 — of the block covering the sample (C10's error analysis).
+The statement composes the syntax round trip, the level-array and sample theorems above and C01. -/
+theorem intra_picture_decodes_within_one (s : State) (hs : StoreOK s) (hr : s.running = 0) (p : Pic) (w h : Nat) (hv : p.Valid s w h)
+    (hw : 1 ≤ w) (hh : 1 ≤ h) (hi : (p.picture s).picType = .iFrame) (rest : Bits) (pos : Nat) :
+    ∃ (pic : DecPic) (lumaLv cbLv crLv : Array Rle.Dct) (qs : List Nat),
+      decodeNextPicture s ⟨p.bits s ++ rest, pos⟩ =
+        .ok (commitPic s (p.picture s) pic, ⟨rest, pos + (p.bits s).length⟩) ∧
+      pic.hdr = p.picture s ∧ QChain (p.picture s).quantizer p.mbs qs ∧
+      (∀ id, lumaLv.getD id .zero = lumaLvAt ((w + 15) / 16) 0 p.mbs qs .zero id) ∧
+      (∀ id, cbLv.getD id .zero = chromaLvAt 0 p.mbs qs 4 .zero id) ∧
+      (∀ id, crLv.getD id .zero = chromaLvAt 0 p.mbs qs 5 .zero id) ∧
+      pic.luma.size = w * h ∧ pic.cb.size = (w + 1) / 2 * ((h + 1) / 2) ∧ pic.cr.size = (w + 1) / 2 * ((h + 1) / 2) ∧
+      (∀ k, ((pic.luma.getD k 0 : Int) - (idealVal lumaLv ((w + 15) / 16 * 2) w (w * h) k 0 : Int)).natAbs ≤ 1) ∧
+      (∀ k, ((pic.cb.getD k 0 : Int) -
+        (idealVal cbLv ((w + 15) / 16) ((w + 1) / 2) ((w + 1) / 2 * ((h + 1) / 2)) k 0 : Int)).natAbs ≤ 1) ∧
+      (∀ k, ((pic.cr.getD k 0 : Int) -
+        (idealVal crLv ((w + 15) / 16) ((w + 1) / 2) ((w + 1) / 2 * ((h + 1) / 2)) k 0 : Int)).natAbs ≤ 1) :=
+  Lemmas.IntraEnd.intra_picture_decodes s hs hr p w h hv hw hh hi rest pos
+
+open H263V.State H263V.Lemmas.StreamAny in
+/-- non-vacuity: the hypotheses are met by a fresh Sorenson decoder and `exSPic`, so that picture decodes successfully -/
+example (rest : Bits) : ∃ pic, decodeNextPicture (State.new { sorenson := true, scalability := false })
+    ⟨(Pic.sor exSPic).bits (State.new { sorenson := true, scalability := false }) ++ rest, 0⟩ =
+      .ok (commitPic (State.new { sorenson := true, scalability := false })
+        ((Pic.sor exSPic).picture (State.new { sorenson := true, scalability := false })) pic,
+        ⟨rest, 0 + ((Pic.sor exSPic).bits (State.new { sorenson := true, scalability := false })).length⟩) ∧ pic.luma.size = 16 * 16 := by
+  obtain ⟨pic, _, _, _, _, h, _, _, _, _, _, hz, _⟩ :=
+    intra_picture_decodes_within_one (State.new { sorenson := true, scalability := false })
+      (Lemmas.PlaneInv.new_storeOK _) rfl (Pic.sor exSPic) 16 16 ⟨rfl, exSPic_valid⟩ (by omega) (by omega) rfl rest 0
+  exact ⟨pic, h, hz⟩
 
 end H263V.Thm.C02
